@@ -11,7 +11,7 @@ class Oracle:
     def __init__(self, shape_index, ty, val, refuse):
         self.si, self.t, self.v = shape_index, ty, val
         self.cap = len(U.encode(ty, val)) + U.MAX_INC
-        self.grow = 0
+        self.step = 0
         self.refuse = refuse
 
     def size(self):
@@ -21,9 +21,7 @@ class Oracle:
     def request(self, delta):
         if delta <= 0:
             return None
-        k = self.grow
-        self.grow += 1
-        if k == self.refuse:
+        if self.step == self.refuse:
             return E_REALLOC
         if self.size() + delta > self.cap:
             return E_REALLOC
@@ -557,7 +555,8 @@ def gen_history(rng, shape, nsteps, refuse=-1, flush=0, budget=16):
     v0 = U.fix_roles(idx, ty, U.gen_val(rng, ty, budget), rng)
     o = Oracle(idx, ty, copy.deepcopy(v0), refuse)
     steps = []
-    for _ in range(nsteps):
+    for si in range(nsteps):
+        o.step = si
         if rng.chance(1, 12):
             op = [90]
         else:
@@ -624,6 +623,7 @@ def judge(c, obs, want):
     o = Oracle(idx, ty, copy.deepcopy(v0), refuse)
     frames, trailer = split_obs(obs, len(steps))
     for si, (op, fr) in enumerate(zip(steps, frames)):
+        o.step = si
         if not fr:
             return "step %d: empty observation" % si
         if op[:1] == [90]:
